@@ -8,6 +8,7 @@ import (
 	"time"
 
 	"github.com/ipfs/go-cid"
+	"github.com/libp2p/go-libp2p/core/peer"
 	"github.com/ipni/go-libipni/dagsync"
 	"pgregory.net/rapid"
 
@@ -17,7 +18,7 @@ import (
 
 type fault struct {
 	At   int    // -1: the head request; k >= 0: the k-th block request of the attempt; for hookfail: the k-th hook call
-	Kind string // s400 s403 s404 s429 s500 s503 reset truncate flipbit stall cancelcaller hookfail
+	Kind string // s400 s403 s404 s429 s500 s503 reset truncate flipbit stall cancelcaller hookfail hookcancel (the k-th hook call cancels the caller's context)
 	Pos  int
 }
 
@@ -33,7 +34,7 @@ type Case struct {
 	Attempts  []fault // 1 or 2 faulty attempts (one fault each), followed by a fault-free attempt
 }
 
-var kinds = []string{"s400", "s403", "s404", "s429", "s500", "s503", "reset", "truncate", "flipbit", "stall", "cancelcaller", "hookfail", "badaddr", "noaddr"}
+var kinds = []string{"s400", "s403", "s404", "s429", "s500", "s503", "reset", "truncate", "flipbit", "stall", "cancelcaller", "hookfail", "hookcancel", "badaddr", "noaddr"}
 
 func genCase(t *rapid.T) Case {
 	c := Case{N: rapid.IntRange(1, 6).Draw(t, "n"), InitPos: -1}
@@ -50,8 +51,11 @@ func genCase(t *rapid.T) Case {
 	for i := 0; i < na; i++ {
 		f := fault{Kind: rapid.SampledFrom(kinds).Draw(t, "kind"), At: rapid.IntRange(-1, c.N-1).Draw(t, "at"), Pos: rapid.IntRange(0, 4096).Draw(t, "pos")}
 		// construct applicable faults instead of rejecting
-		if f.Kind == "cancelcaller" && c.Entry != "sync" {
+		if (f.Kind == "cancelcaller" || f.Kind == "hookcancel") && c.Entry != "sync" {
 			f.Kind = "reset"
+		}
+		if f.Kind == "hookcancel" && f.At < 0 {
+			f.At = 0
 		}
 		if f.Kind == "hookfail" && (c.Seg <= 0 || f.At < 0) {
 			if c.Seg <= 0 {
@@ -75,6 +79,8 @@ func applicable(c Case, f fault) bool {
 	switch f.Kind {
 	case "cancelcaller":
 		return c.Entry == "sync"
+	case "hookcancel":
+		return c.Entry == "sync" && f.At >= 0
 	case "hookfail":
 		return c.Seg > 0 && f.At >= 0
 	case "badaddr", "noaddr":
@@ -263,7 +269,17 @@ func runCase(t *testing.T) func(Case) pbt.Result {
 				ctx, cancel := context.WithCancel(context.Background())
 				wf := wfault(f, cancel, 0)
 				r.s.ArmHook(-1)
+				r.s.SetOnHook(nil)
 				switch {
+				case f.Kind == "hookcancel":
+					r.p.ArmFaults(nil, nil)
+					calls := 0
+					r.s.SetOnHook(func(peer.ID, cid.Cid) {
+						if calls == f.At {
+							cancel()
+						}
+						calls++
+					})
 				case f.Kind == "badaddr" || f.Kind == "noaddr":
 					r.p.ArmFaults(nil, nil)
 				case f.Kind == "hookfail":
@@ -278,6 +294,7 @@ func runCase(t *testing.T) func(Case) pbt.Result {
 				req0, hk0 := len(r.w.Requests()), r.s.NHooks()
 				ok, errText, viol := r.attempt(c, ctx, f.Kind)
 				cancel()
+				r.s.SetOnHook(nil)
 				what := fmt.Sprintf("attempt %d with %s at %d", ai, f.Kind, f.At)
 				if viol != "" {
 					res.Fail = what + ": " + viol
@@ -287,7 +304,7 @@ func runCase(t *testing.T) func(Case) pbt.Result {
 					res.Fail = fmt.Sprintf("%s: stored blocks do not hash to their CID: %v", what, bad)
 					return
 				}
-				reached := f.Kind == "hookfail" && r.s.NHooks()-hk0 > f.At
+				reached := (f.Kind == "hookfail" || f.Kind == "hookcancel") && r.s.NHooks()-hk0 > f.At
 				if f.Kind == "badaddr" || f.Kind == "noaddr" {
 					// the sync cannot even start: no request is made
 					reached = !ok
@@ -306,6 +323,14 @@ func runCase(t *testing.T) func(Case) pbt.Result {
 					if got := r.s.Latest(r.p.ID); got != head {
 						res.Fail = fmt.Sprintf("%s: attempt succeeded but latest-sync is %s", what, got)
 						return
+					}
+					// a sync reported as successful must have done all of its work: the state equals the fault-free run's
+					keys := r.s.Keys()
+					for k := range ref.Keys {
+						if !keys[k] {
+							res.Fail = fmt.Sprintf("%s: the sync was reported as successful (latest-sync moved to the head) but block %s of the chain is not stored; the fault-free run stores %d blocks, this one %d", what, k, len(ref.Keys), len(keys))
+							return
+						}
 					}
 				} else {
 					if reached {
@@ -397,7 +422,7 @@ func runCase(t *testing.T) func(Case) pbt.Result {
 	}
 }
 
-const rule = "chain of 1..6 ads, optional earlier sync of a prefix, segmented (1, 2) or not, explicit or announce-triggered, plain or discovery transport, optional retryable client, one or two publisher addresses; optionally a first address that refuses connections; 1 or 2 faulty attempts, each with one fault (HTTP 400/403/404/429/500/503, connection reset, truncated body, bit flip, stalled response, caller context cancelled, FailSync from the hook, at the head request or at any block-request index; or the sync cannot start at all: sender information with only a non-HTTP address, or with no address), then a fault-free attempt; oracle: differential against a fault-free run of the same configuration in a fresh world: a failed attempt leaves latest-sync unchanged, emits no success notification and (announce) exactly one error notification for the announced CID; a successful attempt ends at the head; the fault-free attempt succeeds, latest-sync, store contents and reported blocks equal the fault-free run and it requests exactly the segment blocks not yet stored; every stored block hashes to its CID. Non-trivial: the fault was reached and the attempt failed; distinct by (fault kind, request index, chain length, entry kind, transport, segment size)."
+const rule = "chain of 1..6 ads, optional earlier sync of a prefix, segmented (1, 2) or not, explicit or announce-triggered, plain or discovery transport, optional retryable client, one or two publisher addresses; optionally a first address that refuses connections; 1 or 2 faulty attempts, each with one fault (HTTP 400/403/404/429/500/503, connection reset, truncated body, bit flip, stalled response, caller context cancelled at a request or inside the k-th hook call, FailSync from the hook, at the head request or at any block-request index; or the sync cannot start at all: sender information with only a non-HTTP address, or with no address), then a fault-free attempt; oracle: differential against a fault-free run of the same configuration in a fresh world: a failed attempt leaves latest-sync unchanged, emits no success notification and (announce) exactly one error notification for the announced CID; a successful attempt ends at the head; the fault-free attempt succeeds, latest-sync, store contents and reported blocks equal the fault-free run and it requests exactly the segment blocks not yet stored; every stored block hashes to its CID. Non-trivial: the fault was reached and the attempt failed; distinct by (fault kind, request index, chain length, entry kind, transport, segment size)."
 
 func TestC04_Random(t *testing.T) {
 	pbt.Run(t, pbt.Config{Prop: "C04", Unit: "TestC04_Random", Rule: rule, TrackCurrent: true}, genCase, runCase(t))
@@ -411,7 +436,7 @@ func TestC04_Exhaustive(t *testing.T) {
 		pairs = true
 	}
 	pbt.RunEnum(t, pbt.Config{Prop: "C04", Unit: "TestC04_Exhaustive", TrackCurrent: true,
-		Rule: fmt.Sprintf("exhaustive single faults: chain lengths %v x all 14 fault kinds x every request index (head, 0..n-1) x {explicit, announce} x {plain, discovery} x {unsegmented, segment 1}; thorough adds all ordered pairs of faults for n = 3; same oracle as TestC04_Random.", ns),
+		Rule: fmt.Sprintf("exhaustive single faults: chain lengths %v x all 15 fault kinds x every request index (head, 0..n-1) x {explicit, announce} x {plain, discovery} x {unsegmented, segment 1}; thorough adds all ordered pairs of faults for n = 3; same oracle as TestC04_Random.", ns),
 	}, func(yield func(Case) bool) {
 		for _, n := range ns {
 			for _, k := range kinds {
